@@ -21,6 +21,7 @@ THEOREMS = ["join_success_before_finish_refuted",
             "join_detached_fails",
             "reclaim_once_after_finish_and_release",
             "no_touch_after_reclaim_refuted",
+            "no_touch_after_reclaim_partial",
             "join_detach_race_strands_target_refuted"]
 JOIN, TRY, DETACH, YIELD, FINISH = 1, 2, 3, 4, 5
 OPNAME = {JOIN: "join", TRY: "tryjoin", DETACH: "detach", YIELD: "yield", FINISH: "finish"}
@@ -269,20 +270,33 @@ def _m_d(label, case, why):
             why.startswith("the target spins forever in clear_or_wait"))
 
 
-MATCH = {"F-C04a": _m_a, "F-C04b": _m_b, "F-C04c": _m_c, "F-C04d": _m_d}
+MATCH = {"F-C04b": _m_b, "F-C04c": _m_c, "F-C04d": _m_d}
 
 
 def known():
-    p = os.path.join(core.VERIF, "known_findings_C04.json")
-    try:
-        data = json.load(open(p))
-    except OSError:
-        return []
+    """known findings of this property from the shared, committed known_findings.json"""
     res = []
-    for f in data.get("findings", []):
-        if f.get("property") == "C04" and f.get("id") in MATCH:
+    for f in core.load_known().get("findings", []):
+        if isinstance(f, dict) and f.get("property") == "C04" and f.get("id") in MATCH:
             res.append({"id": f["id"], "what": "%s %s" % (f["id"], f["what"]), "match": MATCH[f["id"]]})
     return res
+
+
+def code_is_fixed():
+    """does the tree under test contain the F-C04a repair (commit 4ff1f32)?  Selects the model variant."""
+    try:
+        return 1 if "FIBER_JOIN_DETACHED" in open(os.path.join(core.REPO, "src", "fiber.c")).read() else 0
+    except OSError:
+        return 1
+
+
+def set_fix(case, fx):
+    """params[2] of a case = 1: model of the repaired fiber_detach/fiber_join, 0: the code before 4ff1f32"""
+    v = case.split()
+    n = int(v[0])
+    params = (v[1:1 + n] + ["0", "0", "0"])[:max(n, 3)]
+    params[2] = str(fx)
+    return " ".join([str(len(params))] + params + v[1 + n:])
 
 
 # --------------------------------------------------------------------------
@@ -367,7 +381,9 @@ def run(ctx):
     core.coq_property(ctx, "Properties_C04.v", THEOREMS)
     exe = build(ctx)
     if exe:
-        cases = corpus() + gen_cases(ctx, ctx.tier)
+        fx = code_is_fixed()
+        cases = [set_fix(c, fx) for c in corpus() + gen_cases(ctx, ctx.tier)]
+        ctx.coverage["model_variant"] = "repaired detach/join (4ff1f32)" if fx else "pre-fix detach/join"
         ok = core.correspond(ctx, "join", "join", exe, cases, monitor, known())
         st = ctx.stats["join"]
         ctx.coverage.update({"traces_validated_against_impl": st["cases"] - st["differ"],
@@ -382,7 +398,7 @@ def run(ctx):
 def search(ctx, exe):
     c2 = core.Ctx(ctx.pid, "thorough", ctx.seed + 1000)
     try:
-        cases = gen_cases(c2, "thorough")[:20000]
+        cases = [set_fix(c, code_is_fixed()) for c in gen_cases(c2, "thorough")[:20000]]
     finally:
         c2.cleanup()
     impl = core.run_sharded([exe], cases)
